@@ -274,9 +274,8 @@ where
         let mut filtered_kmers = Vec::new();
         let mut removed = 0;
 
-        if filter_ambig_as_missing {
-            self.update_counts(true);
-        }
+        // Stored counts may come from a file filtered with other settings
+        self.update_counts(filter_ambig_as_missing);
 
         for count_it in self
             .variant_count
